@@ -1,13 +1,476 @@
-"""C02 -- placeholder until the check is built"""
+"""C02 -- storm-rise matching is stable and storm-optimal"""
+
+import itertools
+
+from .. import classify_common as cc
+from .. import core, data, gen_series, instrument, oracle_classify
+
 PROPERTY = 'C02'
 LEVEL = 'exploration'
-SHARDS = {'quick': 1, 'thorough': 1}
-RULE = 'not built yet'
+SHARDS = {'quick': 4, 'thorough': 16}
+RULE = (
+    'Three workloads. (a) G-prefs: random bipartite candidate graphs up to 7x7 (30% with tied preferences, cyclic '
+    'preference blocks for instances with several stable matchings) handed to the real find_stable_matching under 6 '
+    'relabellings of the storm keys (changes the order in which set.pop visits them); oracle = brute force over all '
+    'matchings (<= 10 edges): membership in the set of stable matchings, storm-optimality and equality across '
+    'relabellings when preferences are strict, weak stability when tied; own deferred acceptance beyond 10 edges. '
+    '(b) interval lists handed to the real disambiguate_matching, preferences recomputed from the property '
+    '(duration difference in steps, start offset). (c) the G-series corpus through classify with the matching '
+    'walker (candidates recomputed from stored rainfall / water level; no blocking pair; storm-optimal when strict) '
+    'and data-level order variation (0/1/3/7/8/64 dry flat steps prepended: pairing must be the same up to the '
+    'shift).  Non-trivial: instance in which deferred acceptance performs >= 1 rejection or displacement; distinct '
+    'by canonical preference lists / dataset pattern.'
+)
+ASSUMPTIONS = [
+    'find_stable_matching receives candidate lists ordered worst to best; the list order is the storm\'s preference',
+    'a tie in a preference admits any weakly stable outcome',
+]
+SIZES = {
+    'quick': dict(prefs=6000, intervals=1500, n=900, cli=30, shift=60),
+    'thorough': dict(prefs=160000, intervals=40000, n=32000, cli=800, shift=1600, field=48),
+}
+REQUIRED = {
+    tier: {
+        'prefs:instances': 500,
+        'prefs:instances-with-several-stable-matchings': 20,
+        'prefs:tied-instances': 50,
+        'prefs:strict-instances-storm-optimality-checked': 200,
+        'prefs:relabelled-runs': 1000,
+        'intervals:instances': 200,
+        'datasets-with-rejection': 3,
+        'datasets-with-displacement': 3,
+        'datasets-with-strict-preferences': 50,
+        'datasets-with-tied-preferences': 20,
+        'shift:variants-compared': 20,
+        'contract-evaluations:spowtd.classify.find_stable_matching': 500,
+    }
+    for tier in ('quick', 'thorough')
+}
+MIN_NONTRIVIAL = {'quick': 300, 'thorough': 3000}
+
+
+# ---------------------------------------------------------------------------
+# Oracle: stable matchings by brute force
+
+
+def blocking(edges, sp, jp, m):
+    """m: jump -> storm.  Strict blocking pairs under scores sp / jp"""
+    sm = {s: j for j, s in m.items()}
+    out = []
+    for s, j in edges:
+        if m.get(j) == s:
+            continue
+        s_ok = s not in sm or sp[(s, j)] > sp[(s, sm[s])]
+        j_ok = j not in m or jp[(s, j)] > jp[(m[j], j)]
+        if s_ok and j_ok:
+            out.append((s, j))
+    return out
+
+
+def all_stable(edges, sp, jp):
+    out = []
+    for r in range(len(edges) + 1):
+        for sub in itertools.combinations(edges, r):
+            if len({s for s, _ in sub}) < r or len({j for _, j in sub}) < r:
+                continue
+            m = {j: s for s, j in sub}
+            if not blocking(edges, sp, jp, m):
+                out.append(m)
+    return out
+
+
+def gen_prefs(rng):
+    """Random candidate graph with scores.  Returns (edges, sp, jp, tied)"""
+    mode = rng.random()
+    ns, nj = rng.randint(1, 7), rng.randint(1, 7)
+    if mode < 0.25:
+        # cyclic block: storms and rises 0..k-1, storm i likes rise i best then
+        # i+1; rise i likes storm i-1 best -> two or more stable matchings
+        k = rng.randint(2, 4)
+        edges = []
+        sp, jp = {}, {}
+        for i in range(k):
+            for d, (sv, jv) in enumerate([(2, 1), (1, 2)]):
+                e = (i, (i + d) % k)
+                edges.append(e)
+                sp[e] = sv
+                jp[e] = jv
+        # add a few random extra edges with low scores
+        for _ in range(rng.randint(0, 2)):
+            e = (rng.randrange(k), rng.randrange(k))
+            if e not in sp:
+                edges.append(e)
+                sp[e] = -rng.randint(1, 9) - rng.random()
+                jp[e] = -rng.randint(1, 9) - rng.random()
+        return edges, sp, jp, False
+    p = rng.choice([0.3, 0.6, 0.9])
+    edges = [(s, j) for s in range(ns) for j in range(nj) if rng.random() < p]
+    tied = rng.random() < 0.3
+    sp, jp = {}, {}
+    if tied:
+        for e in edges:
+            sp[e] = rng.randint(0, 3)
+            jp[e] = rng.randint(0, 3)
+    else:
+        vals = list(range(len(edges)))
+        rng.shuffle(vals)
+        for e, v in zip(edges, vals):
+            sp[e] = v
+        rng.shuffle(vals)
+        for e, v in zip(edges, vals):
+            jp[e] = v
+    return edges, sp, jp, tied
+
+
+def call_fsm(edges, sp, jp, relabel, rng):
+    """Call the real find_stable_matching with storms relabelled by `relabel`
+    (dict storm -> key); returns match jump -> original storm"""
+    import spowtd.classify as cl
+
+    inv = {v: k for k, v in relabel.items()}
+    sc = {}
+    for s, j in edges:
+        sc.setdefault(relabel[s], []).append(j)
+    for s in sc:
+        js = sc[s]
+        rng.shuffle(js)  # ties may come in any order
+        js.sort(key=lambda j, s=s: sp[(inv[s], j)])  # worst .. best
+    jpref = {}
+    for s, j in edges:
+        jpref.setdefault(j, {})[relabel[s]] = jp[(s, j)]
+    # insertion order of the dict also varies
+    items = list(sc.items())
+    rng.shuffle(items)
+    result = cl.find_stable_matching(dict(items), jpref)
+    return {j: inv[s] for j, s in result.items()}
+
+
+class HashedKey:
+    """Storm key with a chosen hash, so that set.pop() visits storms in many orders"""
+
+    __slots__ = ('name', 'h')
+
+    def __init__(self, name, h):
+        self.name = name
+        self.h = h
+
+    def __hash__(self):
+        return self.h
+
+    def __eq__(self, other):
+        return isinstance(other, HashedKey) and self.name == other.name
+
+    def __repr__(self):
+        return 'S{}'.format(self.name)
+
+    def __deepcopy__(self, memo):
+        return self
+
+
+def check_prefs_instance(ctx, rng, edges, sp, jp, tied, case=None):
+    rec = ctx.rec
+    rec.case()
+    rec.hit('prefs:instances')
+    if not edges:
+        rec.hit('prefs:empty-instances')
+        return
+    case = case or {'kind': 'prefs', 'edges': edges, 'sp': [[list(k), v] for k, v in sp.items()],
+                    'jp': [[list(k), v] for k, v in jp.items()], 'tied': tied}
+    storms = sorted({s for s, _ in edges})
+    small = len(edges) <= 10
+    stable = all_stable(edges, sp, jp) if small else None
+    if stable is not None and len(stable) > 1:
+        rec.hit('prefs:instances-with-several-stable-matchings')
+    if tied:
+        rec.hit('prefs:tied-instances')
+    # the oracle's own run tells whether the instance is contended
+    own, nrej, ndisp, nexh = oracle_classify.own_deferred_acceptance(edges, sp, jp)
+    if nrej or ndisp:
+        rec.mark_nontrivial(core.digest(('prefs', sorted(edges), sorted(sp.items()), sorted(jp.items()))))
+        if nrej:
+            rec.hit('prefs:instances-with-rejection')
+        if ndisp:
+            rec.hit('prefs:instances-with-displacement')
+        if nexh:
+            rec.hit('prefs:instances-with-exhausted-storm')
+    results = []
+    for variant in range(6):
+        if variant == 0:
+            relabel = {s: s for s in storms}
+        elif variant == 1:
+            relabel = {s: 1000 - 7 * s for s in storms}
+        elif variant == 2:
+            relabel = {s: s * 8 for s in storms}  # collide modulo the table size
+        else:
+            relabel = {s: HashedKey(s, rng.randrange(0, 64)) for s in storms}
+        try:
+            m = call_fsm(edges, sp, jp, relabel, rng)
+        except Exception as exc:  # pylint: disable=broad-except
+            desc = core.describe_exception(exc)
+            if desc['origin'] == 'harness':
+                rec.inconclusive_because('harness exception calling find_stable_matching: {}'.format(desc))
+                return
+            rec.violation('find_stable_matching-raises:' + desc['type'], {'exception': desc, 'variant': variant}, case, 'prefs')
+            return
+        rec.hit('prefs:relabelled-runs')
+        results.append(m)
+        problems = []
+        if len(set(m.values())) != len(m):
+            problems.append('storm matched twice')
+        if any((s, j) not in sp for j, s in m.items()):
+            problems.append('non-candidate pair in result')
+        if not problems:
+            bp = blocking(edges, sp, jp, m)
+            if bp:
+                problems.append('blocking pair {}'.format(bp[0]))
+        if problems:
+            rec.violation('fsm-unstable' if 'blocking' in problems[0] else 'fsm-not-a-matching',
+                          {'problems': problems, 'result': sorted(m.items()), 'variant': variant}, case, 'prefs')
+            return
+        if stable is not None and m not in stable:
+            rec.violation('fsm-not-among-stable-matchings', {'result': sorted(m.items())}, case, 'prefs')
+            return
+    if not tied:
+        # strict preferences: unique storm-optimal stable matching, whatever the order
+        if any(r != results[0] for r in results[1:]):
+            rec.violation('fsm-result-depends-on-order', {'results': [sorted(r.items()) for r in results]}, case, 'prefs')
+            return
+        m = results[0]
+        if m != own:
+            rec.violation('fsm-not-storm-optimal', {'result': sorted(m.items()), 'storm_optimal': sorted(own.items())}, case, 'prefs')
+            return
+        if stable is not None:
+            sm = {s: j for j, s in m.items()}
+            for m2 in stable:
+                sm2 = {s: j for j, s in m2.items()}
+                if set(sm) != set(sm2):
+                    rec.inconclusive_because('oracle: rural-hospitals property failed in brute force')
+                    return
+                for s in sm:
+                    if sp[(s, sm[s])] < sp[(s, sm2[s])]:
+                        rec.violation('fsm-not-storm-optimal', {'result': sorted(m.items()), 'better_for_storm': s, 'other_stable': sorted(m2.items())}, case, 'prefs')
+                        return
+            rec.hit('prefs:strict-instances-storm-optimality-checked')
+        else:
+            rec.hit('prefs:strict-instances-compared-with-own-deferred-acceptance')
+    if len(ctx.rec.samples) < 2 and (nrej or ndisp):
+        rec.sample({'workload': 'prefs', 'edges': edges, 'storm_scores': [[list(k), v] for k, v in sorted(sp.items())],
+                    'rise_scores': [[list(k), v] for k, v in sorted(jp.items())], 'result': sorted(results[0].items()),
+                    'stable_matchings': len(stable) if stable is not None else None})
+
+
+# ---------------------------------------------------------------------------
+# (b) disambiguate_matching on interval lists
+
+
+def gen_intervals(rng):
+    """Disjoint storm runs and rise runs on a short index axis; candidates =
+    overlapping pairs (plus, sometimes, arbitrary extra pairs)"""
+    n = rng.randint(6, 40)
+
+    def disjoint_runs():
+        out = []
+        i = rng.randint(0, 2)
+        while i < n:
+            L = rng.randint(1, 4)
+            out.append((i, min(n, i + L)))
+            i += L + rng.randint(1, 4)
+        return out
+
+    storms = disjoint_runs()                                 # steps [a, b)
+    rises = [(a, b + 1) for a, b in disjoint_runs()]          # samples a .. b  ->  slice (a, b+1)
+    pairs = [(s, r) for s in storms for r in rises if max(s[0], r[0]) < min(s[1], r[1] - 1)]
+    if rng.random() < 0.3:
+        for _ in range(rng.randint(1, 3)):
+            pairs.append((rng.choice(storms), rng.choice(rises)))
+        pairs = list(dict.fromkeys(pairs))
+    rng.shuffle(pairs)
+    return pairs
+
+
+def check_intervals_instance(ctx, rng, pairs, case=None):
+    import spowtd.classify as cl
+
+    rec = ctx.rec
+    rec.case()
+    rec.hit('intervals:instances')
+    case = case or {'kind': 'intervals', 'pairs': [[list(s), list(r)] for s, r in pairs]}
+    if not pairs:
+        return
+    rain_intervals = [p[0] for p in pairs]
+    jump_intervals = [p[1] for p in pairs]
+    try:
+        got_r, got_j = cl.disambiguate_matching(list(rain_intervals), list(jump_intervals))
+    except Exception as exc:  # pylint: disable=broad-except
+        desc = core.describe_exception(exc)
+        if desc['origin'] == 'harness':
+            rec.inconclusive_because('harness exception calling disambiguate_matching: {}'.format(desc))
+            return
+        rec.violation('disambiguate_matching-raises:' + desc['type'], {'exception': desc}, case, 'intervals')
+        return
+    got = list(zip([tuple(x) for x in got_r], [tuple(x) for x in got_j]))
+    edges = [(s[0], r[0]) for s, r in pairs]
+    S = {s[0]: s for s, _ in pairs}
+    R = {r[0]: r for _, r in pairs}
+    sp = {(s[0], r[0]): -abs((s[1] - s[0]) - (r[1] - r[0] - 1)) for s, r in pairs}
+    jp = {(s[0], r[0]): -abs(r[0] - s[0]) for s, r in pairs}
+    m = {}
+    problems = []
+    for s, r in got:
+        if (s, r) not in set(pairs):
+            problems.append('returned pair {} {} is not a candidate'.format(s, r))
+        if r[0] in m:
+            problems.append('rise returned twice')
+        m[r[0]] = s[0]
+    if len(set(m.values())) != len(m):
+        problems.append('storm returned twice')
+    if not problems:
+        bp = blocking(edges, sp, jp, m)
+        if bp:
+            s, j = bp[0]
+            problems.append('blocking pair storm {} rise {}'.format(S[s], R[j]))
+    if problems:
+        rec.violation('disambiguate-unstable' if 'blocking' in problems[0] else 'disambiguate-not-a-matching',
+                      {'problems': problems[:3], 'returned': got[:10]}, case, 'intervals')
+        return
+    own, nrej, ndisp, _ = oracle_classify.own_deferred_acceptance(edges, sp, jp)
+    by_s, by_j = {}, {}
+    for s, j in edges:
+        by_s.setdefault(s, []).append(j)
+        by_j.setdefault(j, []).append(s)
+    strict = all(len({sp[(s, j)] for j in js}) == len(js) for s, js in by_s.items()) and all(
+        len({jp[(s, j)] for s in ss}) == len(ss) for j, ss in by_j.items())
+    if strict:
+        rec.hit('intervals:strict-instances')
+        if own != m:
+            rec.violation('disambiguate-not-storm-optimal', {'returned': sorted(m.items()), 'storm_optimal': sorted(own.items())}, case, 'intervals')
+            return
+    else:
+        rec.hit('intervals:tied-instances')
+    if nrej or ndisp:
+        rec.hit('intervals:contended-instances')
+        rec.mark_nontrivial(core.digest(('intervals', sorted(pairs))))
+
+
+# ---------------------------------------------------------------------------
+# (c) data level: order variation by prepending dry flat steps
+
+
+def pairing_of(case):
+    import spowtd.classify as cl
+
+    connection = data.load_case(case)
+    cl.classify_intervals(connection, case['sthr'], case['jthr'])
+    (t0,) = connection.execute('SELECT min(epoch) FROM grid_time').fetchone()
+    pairs = sorted(connection.execute('SELECT storm_start_epoch, interval_start_epoch FROM zeta_interval_storm').fetchall())
+    findings, stats = oracle_classify.walk(connection, case['sthr'], case['jthr'])
+    connection.close()
+    return t0, pairs, findings, stats
+
+
+def check_shift_case(ctx, case):
+    rec = ctx.rec
+    rec.case()
+    step = case['step']
+    if case['z'][0][0] != 0:
+        return
+    try:
+        t0, base, findings, stats = pairing_of(case)
+    except Exception:  # pylint: disable=broad-except
+        rec.hit('shift:base-run-raised (C01 reports it)')
+        return
+    strict = bool(stats.get('datasets-with-strict-preferences'))
+    rec.hit('shift:strict-base-datasets' if strict else 'shift:tied-or-ambiguous-base-datasets')
+    base_rel = [(s - t0, j - t0) for s, j in base]
+    z0 = case['z'][0][1]
+    for k in (1, 3, 7, 8, 64):
+        shifted = dict(case)
+        shifted['rain'] = [0.0] * k + list(case['rain'])
+        shifted['z'] = [[i * step, z0] for i in range(k)] + [[sec + k * step, v] for sec, v in case['z']]
+        try:
+            t1, got, findings, _ = pairing_of(shifted)
+        except Exception as exc:  # pylint: disable=broad-except
+            desc = core.describe_exception(exc)
+            rec.violation('shifted-record-raises:' + desc['type'], {'exception': desc, 'prepended_steps': k}, shifted, 'shift')
+            return
+        for p, key, w in findings:
+            if p == PROPERTY:
+                rec.violation(key, w, shifted, 'classify')
+                return
+        got_rel = [(s - t1 - k * step, j - t1 - k * step) for s, j in got]
+        if strict:
+            # no candidate ties with another: the unique storm-optimal stable
+            # matching, whatever order the storms are taken in
+            rec.hit('shift:variants-compared')
+            if got_rel != base_rel:
+                rec.violation('pairing-depends-on-record-position',
+                              {'prepended_steps': k, 'base': base_rel[:10], 'shifted': got_rel[:10]}, case, 'shift')
+                return
+        else:
+            rec.hit('shift:tied-variants-each-checked-for-stability')
+            if got_rel != base_rel:
+                rec.hit('shift:tied-variants-with-a-different-stable-outcome')
+    if strict and len(base) >= 2 and stats.get('contended'):
+        rec.mark_nontrivial(core.digest(('shift', case['rain'], case['z'], case['sthr'], case['jthr'])))
+
+
+# ---------------------------------------------------------------------------
 
 
 def run(ctx):
-    ctx.rec.inconclusive_because('check not built yet')
+    import spowtd.classify as cl
+
+    s = SIZES[ctx.tier]
+    contracts = instrument.Contracts()
+    cc.install_contracts(contracts)
+    reports = []
+    contracts.sink = lambda p, k, w: reports.append((p, k, w))
+    reach = instrument.Reach([cl.find_stable_matching.__wrapped__])
+    try:
+        with reach:
+            rng = ctx.rng('prefs')
+            for _ in range(ctx.share(s['prefs'])):
+                edges, sp, jp, tied = gen_prefs(rng)
+                check_prefs_instance(ctx, rng, edges, sp, jp, tied)
+            rng = ctx.rng('intervals')
+            for _ in range(ctx.share(s['intervals'])):
+                check_intervals_instance(ctx, rng, gen_intervals(rng))
+            label = 'spowtd.classify.find_stable_matching'
+            for text, name in (('matchable_storms.add(matches[jump])', 'displaced storm re-queued'),
+                               ('matches[jump] = storm', 'match assigned'),
+                               ('matchable_storms.add(storm)', 'rejected storm re-queued')):
+                if reach.hit_lines_matching(label, text):
+                    ctx.rec.hit('reach:find_stable_matching: ' + name)
+        for p, k, w in reports:
+            if p == PROPERTY:
+                ctx.rec.violation(k, w, None, 'prefs')
+        contracts.sink = None
+    finally:
+        contracts.uninstall()
+    for name, n in contracts.evaluations.items():
+        ctx.rec.hit('contract-evaluations:' + name, n)
+    # (c) corpus + shifts
+    cc.run_corpus(ctx, PROPERTY, s['n'], s['cli'], 0,
+                  cc.field_grid(ctx.seed, s['field']) if s.get('field') else None)
+    rng = ctx.rng('shift')
+    for i in range(ctx.share(s['shift'])):
+        force = ['chain', 'storm_two_rises', 'rise_two_storms', 'displace_exhaust', 'long', None][i % 6]
+        case = gen_series.gen(rng, force=force)
+        check_shift_case(ctx, case)
 
 
 def replay(ctx, case, module=None):
-    ctx.rec.inconclusive_because('check not built yet')
+    rng = core.make_rng('replay')
+    if case.get('kind') == 'prefs':
+        sp = {tuple(k): v for k, v in case['sp']}
+        jp = {tuple(k): v for k, v in case['jp']}
+        edges = [tuple(e) for e in case['edges']]
+        for _ in range(5):
+            check_prefs_instance(ctx, rng, edges, sp, jp, case['tied'], case)
+    elif case.get('kind') == 'intervals':
+        pairs = [(tuple(s), tuple(r)) for s, r in case['pairs']]
+        check_intervals_instance(ctx, rng, pairs, case)
+    elif module == 'shift':
+        check_shift_case(ctx, case)
+    else:
+        cc.replay_case(ctx, PROPERTY, case)
